@@ -416,7 +416,11 @@ def main(check, tier, base_seed):
             "faults_fired": dict(sorted(tot["faults"].items())),
             "distinct_event_logs": len(tot["digests"]),
             "distinct_interleavings": len(tot["interleavings"]),
+            "distinct_interleavings_note": "C14: distinct (task, op) schedules; C11/C18: distinct operation-kind "
+                                           "sequences; 0 where a run is a single task without a schedule",
             "distinct_states": len(tot["states"]),
+            "distinct_states_note": "C14: build-directory fingerprints seen after a step; C11: (collector sizes, live "
+                                    "objects by class, library-retained) after a step; C18: driver stat lines",
             "probes": dict(sorted(tot["probes"].items())),
             "probes_at_zero": zero_probes,
             "stats": dict(sorted(tot["stats"].items())),
